@@ -316,7 +316,7 @@ func (c *Ctx) constsCount(v ssa.Value, depth int) map[string]int {
 			sites := callSitesOf(c, fn)
 			if len(sites) == 0 || idx < 0 {
 				if os.Getenv("QVET_DEBUG_CONSTS") != "" {
-					fmt.Fprintf(os.Stderr, "constsCount: no call sites of %v (param %v)\n", fn, x)
+					fmt.Fprintf(os.Stderr, "constsCount: no call sites of %v (param %v) synthetic=%q live=%v\n", fn, x, fn.Synthetic, c.CG().live[fn])
 				}
 				return one("?")
 			}
